@@ -39,6 +39,10 @@ CORPUS = [
          old="lz4.BlockChecksumOption(blockChecksum),", new="lz4.BlockChecksumOption(false),"),
     dict(name="C20-output-mode-fixed", kind="break", props=["C20"], file="cmd/lz4c/uncompress.go",
          old="mode := zinfo.Mode() // use the same mode for the output file", new="mode := zinfo.Mode() | 0o644 // use the same mode for the output file"),
+    dict(name="C20-compress-leaves-the-mode-to-the-umask", kind="break", props=["C20"], file="cmd/lz4c/compress.go",
+         old="\t\t\tif err := zfile.Chmod(mode); err != nil {\n\t\t\t\treturn fidx, err\n\t\t\t}\n", new=""),
+    dict(name="C20-uncompress-leaves-the-mode-to-the-umask", kind="break", props=["C20"], file="cmd/lz4c/uncompress.go",
+         old="\t\t\tif err := file.Chmod(mode); err != nil {\n\t\t\t\treturn fidx, err\n\t\t\t}\n", new=""),
     # ---- bounded stand-in C08 ----
     dict(name="C08-reset-after-close-waits-again", kind="break", props=["C08"], file="internal/lz4stream/block.go",
          old="\tb.Blocks = nil\n\terr := b.err", new="\terr := b.err"),
@@ -48,6 +52,32 @@ CORPUS = [
     dict(name="C08-worker-releases-buffer-early", kind="break", props=["C08"], file="writer.go",
          old="\t\tc <- b.Compress(w.frame, data, w.level)\n\t\t<-c\n\t\tw.handler(len(b.Data))\n\t\tb.Close(w.frame)\n\t\tif safe {",
          new="\t\tc <- b.Compress(w.frame, data, w.level)\n\t\tw.handler(len(b.Data))\n\t\tb.Close(w.frame)\n\t\t<-c\n\t\tif safe {"),
+    dict(name="C08-frame-reset-clears-before-stopping", kind="break", props=["C08"], file="internal/lz4stream/frame.go",
+         old="\t_ = f.Blocks.close(f, num)\n\tf.Magic = 0\n\tf.Descriptor.Checksum = 0\n", new="\tf.Magic = 0\n\tf.Descriptor.Checksum = 0\n\t_ = f.Blocks.close(f, num)\n"),
+    dict(name="C08-close-in-error-leaves-the-pipeline", kind="break", props=["C08"], file="writer.go",
+         old="stop it.\n\t\tw.frame.Reset(w.num)\n\t\tw.wg.Wait()\n\t\treturn w.state.err", new="stop it.\n\t\treturn w.state.err"),
+    dict(name="C08-close-after-failed-header-leaves-the-pipeline", kind="break", props=["C08"], file="writer.go",
+         old="\tif err := w.Flush(); err != nil {\n\t\tw.frame.Reset(w.num)\n\t\tw.wg.Wait()\n\t\treturn err", new="\tif err := w.Flush(); err != nil {\n\t\treturn err"),
+    dict(name="C08-close-does-not-wait-for-the-block-goroutines", kind="break", props=["C08"], file="writer.go",
+         old="\t// callback and release their buffers.\n\tw.wg.Wait()\n", new="\t// callback and release their buffers.\n"),
+    dict(name="C08-reset-does-not-wait-for-the-block-goroutines", kind="break", props=["C08"], file="writer.go",
+         old="\tw.frame.Reset(w.num)\n\tw.wg.Wait()\n\tw.state.reset()", new="\tw.frame.Reset(w.num)\n\tw.state.reset()"),
+    dict(name="C08-read-takes-an-empty-block-for-the-end", kind="break", props=["C08"], file="reader.go",
+         old="\t\t\t\tr.data, ok = <-r.reads\n\t\t\t\tif !ok {", new="\t\t\t\tr.data, ok = <-r.reads\n\t\t\t\tif !ok || len(r.data) == 0 {"),
+    dict(name="C08-writeto-takes-an-empty-block-for-the-end", kind="break", props=["C08"], file="reader.go",
+         old="\t\t\tbn = len(dst)\n\t\t\tif !ok {", new="\t\t\tbn = len(dst)\n\t\t\tif !ok || bn == 0 {"),
+    dict(name="C08-reader-reset-does-not-wait-for-the-old-stream", kind="break", props=["C08"], file="internal/lz4stream/block.go",
+         old="\tb.closeR(io.ErrClosedPipe)\n\tfor buf := range reads {\n\t\tlz4block.Put(buf)\n\t}\n", new="\tb.closeR(io.ErrClosedPipe)\n\tgo func() {\n\t\tfor buf := range reads {\n\t\t\tlz4block.Put(buf)\n\t\t}\n\t}()\n"),
+    dict(name="C17-writeto-after-read-is-an-unhandled-state", kind="break", props=["C17", "C08"], file="reader.go",
+         old="\tcase readState:\n\t\t// Read was used first: WriteTo carries on from where it stopped.\n", new=""),
+    dict(name="C17-writeto-after-read-drops-the-started-block", kind="break", props=["C17", "C02"], file="reader.go",
+         old="\t\tbn, err = w.Write(rest)\n", new="\t\tbn, err = w.Write(rest[:0])\n"),
+    dict(name="C17-empty-source-latches-a-wrapped-eof", kind="break", props=["C17"], file="reader.go",
+         old="if err = r.init(); r.noFrame(err) || r.state.next(err) {", new="if err = r.init(); r.state.next(err) {"),
+    dict(name="C17-empty-source-writeto-reports-eof", kind="break", props=["C17"], file="reader.go",
+         old="\t\tif err = r.init(); r.noFrame(err) {\n\t\t\treturn 0, nil\n\t\t}\n\t\tif r.state.next(err) {", new="\t\tif err = r.init(); r.state.next(err) {"),
+    dict(name="C17-no-frame-keeps-the-flags-of-the-previous-frame", kind="break", props=["C17", "C19"], file="reader.go",
+         old="\tr.frame.Descriptor.Flags = 0\n\tr.state.state = closedState\n", new="\tr.state.state = closedState\n"),
     # ---- bounded stand-ins C01 / C04 / C12 ----
     dict(name="C01-fast-match-not-verified", kind="break", props=["C01"], file="internal/lz4block/block.go",
          old="if offset <= 0 || offset >= winSize || uint32(match>>8) != binary.LittleEndian.Uint32(src[ref2:]) {",
